@@ -361,6 +361,41 @@ theorem C10_gen_arm_frame {σ : Type} (a : Gen.ReqShape.Arm) (ha : a ∉ expecte
   revert ha
   cases a <;> decide +kernel
 
+/-- Path by path (`armPaths`: the alternatives of an `if/else` chain or of a `match` are separate paths): the
+    paths with a refusing statement after an effect, as (arm, index of the path, count).  The over-approximation of
+    `expectedLateArm` disappears for `root_SignCommitmentTx` (each of its two alternatives is in the discipline) and
+    the composite arms split into their three continuations: after the validation, the old-protocol revocation
+    (index 0: five checks and the refusing setter), `get_per_commitment_point` (index 1: one) and the activation of
+    the initial commitment (index 2: two). -/
+def expectedLatePaths : List (Gen.ReqShape.Arm × Nat × Nat) :=
+  [(.root_SignAnchorspend, 0, 4),
+   (.chan_ValidateCommitmentTx, 0, 6), (.chan_ValidateCommitmentTx, 1, 1), (.chan_ValidateCommitmentTx, 2, 2),
+   (.chan_ValidateCommitmentTx2, 0, 6), (.chan_ValidateCommitmentTx2, 1, 1), (.chan_ValidateCommitmentTx2, 2, 2),
+   (.chan_RevokeCommitmentTx, 0, 2)]
+
+def latePaths (a : Gen.ReqShape.Arm) : List (Gen.ReqShape.Arm × Nat × Nat) :=
+  ((Gen.ReqShape.armPaths a).zipIdx.filterMap (fun (p, i) =>
+    if ReqShape.lateChecks p = 0 then none else some (a, i, ReqShape.lateChecks p)))
+
+/-- **C10_gen_arm_paths** (generated obligation) -/
+theorem C10_gen_arm_paths : Gen.ReqShape.Arm.all.flatMap latePaths = expectedLatePaths := by
+  decide +kernel
+
+/-- every execution path of every arm that is not listed is in the discipline: a refused run along it returns
+    the state it started from -/
+theorem C10_gen_arm_path_frame {σ : Type} (a : Gen.ReqShape.Arm) (p : List ReqShape.Ev)
+    (hp : p ∈ Gen.ReqShape.armPaths a) (hl : ReqShape.lateChecks p = 0)
+    (chk : Nat → σ → Bool) (eff : Nat → σ → σ) (s : σ)
+    (hr : (exec (toStmts chk eff 0 p) s).2 = false) : (exec (toStmts chk eff 0 p) s).1 = s :=
+  let _ := hp
+  C10_shape_frame p chk eff s hl hr
+
+/-- both alternatives of `SignCommitmentTx` (the mutual-close workaround and the holder commitment) are in the
+    discipline -/
+theorem C10_gen_arm_paths_sign_commitment :
+    (Gen.ReqShape.armPaths .root_SignCommitmentTx).length = 2 ∧
+    ∀ p ∈ Gen.ReqShape.armPaths .root_SignCommitmentTx, ReqShape.lateChecks p = 0 := by decide +kernel
+
 theorem C10_gen_arm_all (a : Gen.ReqShape.Arm) : a ∈ Gen.ReqShape.Arm.all := by
   cases a <;> decide +kernel
 
